@@ -7,6 +7,8 @@ V = os.path.dirname(os.path.dirname(os.path.abspath(__file__)))
 sys.path.insert(0, os.path.join(V, 'tools'))
 from gen import sources
 WT = os.environ.get('REFAC_WT', '/tmp/wt/refac_run')
+EV = os.environ.get('REFAC_EV', '/tmp/refac_ev')                 # several instances may run side by side: give each its own worktree, evidence directory and result file
+OUT = os.environ.get('REFAC_OUT', '/tmp/refac_results.json')
 def sh(c): return subprocess.run(c, shell=True, capture_output=True, text=True)
 def main():
     sh(f'git -C /repo worktree remove --force {WT}'); r = sh(f'git -C /repo worktree add --detach {WT} HEAD -q'); assert r.returncode == 0, r.stderr
@@ -25,16 +27,16 @@ def main():
                 for pid in pids:
                     if pid == 'C20' and len(pids) > 1 and os.environ.get('REFAC_C20') != '1': pass
                     t = time.time()
-                    env = dict(os.environ, VERIF_REPO=WT, VERIF_EVIDENCE_DIR='/tmp/refac_ev', VERIF_REPLAYS_DIR='/tmp/refac_ev', VERIF_SEED=os.environ.get('VERIF_SEED', '0'))
+                    env = dict(os.environ, VERIF_REPO=WT, VERIF_EVIDENCE_DIR=EV, VERIF_REPLAYS_DIR=EV, VERIF_SEED=os.environ.get('VERIF_SEED', '0'))
                     p = subprocess.run([f'{V}/check', pid, '--tier', 'quick'], capture_output=True, text=True, env=env, timeout=3600)
                     vio = [l for l in (p.stdout + p.stderr).splitlines() if l.startswith('VIOLATION') or l.startswith('DETAIL')]
                     ev = {}
-                    try: ev = json.load(open(f'/tmp/refac_ev/{pid}.json'))['coverage'].get('kernel_bridges', {})
+                    try: ev = json.load(open(f'{EV}/{pid}.json'))['coverage'].get('kernel_bridges', {})
                     except Exception: pass
                     print(f'{name} {pid}: rc={p.returncode} {"ALARM " + vio[0][:300] if p.returncode else "quiet"} unproved={ev.get("unproved")} untranslatable={ev.get("untranslatable")} {time.time() - t:.0f}s', flush=True)
                     out.setdefault(name, {})[pid] = {'rc': p.returncode, 'lines': vio[:3], 'kernel_bridges': ev}
                 sh(f'git -C {WT} reset -q --hard')
     finally:
         sh(f'git -C /repo worktree remove --force {WT}')
-    json.dump(out, open('/tmp/refac_results.json', 'w'), indent=1)
+    json.dump(out, open(OUT, 'w'), indent=1)
 main()
